@@ -105,15 +105,15 @@ def run_shape(shape):
     c = _oracle_counts(L, n, tau, noncorr, xs, nans)
     K = [[z3.ToReal(z3.Int(f"k{a}_{b}")) for b in range(n)] for a in range(n)]   # fresh (integer-valued) count variables for the cut
     for path in eng.explore(body):
-        acc.paths += 1
+        acc.begin(prover, path)
         if path.kind == "exc":
             acc.structural("no_exception", False, detail=repr(path.value) + (path.tb or "")[-500:],
                            cex={"kind": "exception", "exc": type(path.value).__name__})
             continue
         M, Mr, doks = path.value
         prem = path.premises
-        if acc.reachable is None:
-            acc.reachable = prover.satisfiable(prem) == "sat"
+        if acc.reachable is not True:
+            acc.reach(prover.satisfiable(prem))
         acc.structural("shape", tuple(M.shape) == (n, n), detail=M.shape)
         A = M.toarray()
         Ar = Mr.toarray() if Mr is not None else None
